@@ -68,9 +68,11 @@ def polars_object_coercible(
 ) -> pl.LazyFrame:
     """Checks whether a polars object is coercible with respect to a type."""
     key = data_container.key or "*"
-    coercible = data_container.lazyframe.cast(
-        {key: type_}, strict=False
-    ).select(pl.col(key).is_not_null())
+    # a null that was already null before the cast is not a coercion failure
+    coercible = data_container.lazyframe.select(
+        pl.col(key).cast(type_, strict=False).is_not_null()
+        | pl.col(key).is_null()
+    )
     # reduce to a single boolean column
     return coercible.select(pl.all_horizontal(key).alias(CHECK_OUTPUT_KEY))
 
